@@ -507,7 +507,7 @@ def shard(member, acc):
         sch = H.load_schema(xml)
         mid = {"name": name, "schema": xml}
         na = nr = 0
-        cap = 12 if tier == "quick" else 60
+        cap = 12 if tier == "quick" else 20
         for events, d in C.nodes(S, root, cdepth, lean):
             if d.verdict == "U" or len(events) < (3 if lean else 2):
                 continue
@@ -536,7 +536,8 @@ def shard(member, acc):
 
 
 def run(tier):
-    mem = [("corpus",) + m + (tier,) for m in C.members_bounded(tier, 4)]
+    # both tiers use the quick schema family; the thorough tier goes one rewrite deeper on more seeds per schema
+    mem = [("corpus",) + m + (tier,) for m in C.members("quick")]
     for i, t in enumerate(LOGGER_TEXTS):
         mem.append(("fixed", "logger-%d" % i, LOGGER_SCHEMA, [t], tier))
     for i, t in enumerate(MAPPING_TEXTS):
